@@ -2,8 +2,8 @@
 
 Scope
 -----
-Every case is one HyMMSBMSampler configuration (parameters u, w on N <= 8 nodes, K <= 3, w full or diagonal, entries of
-u zero with probability 1/5; burn_in_steps and intermediate_steps in {0, 1, 20}; a seed in 0..9 (quick) / 0..99
+Every case is one HyMMSBMSampler configuration (parameters u, w on N <= 8 nodes - up to 12 in the "shared" cases, 24..30 in the
+"numerical corner" cases below -, K <= 3, w full or diagonal, entries of u zero with probability 1/5; burn_in_steps and intermediate_steps in {0, 1, 20}; a seed in 0..9 (quick) / 0..99
 (thorough)).  For every case two samplers are built with identical arguments and the first 5 hypergraphs of
 sample(...) of each are taken.  Modes:
 
@@ -31,6 +31,23 @@ sample(...) of each are taken.  Modes:
 * "deg only" / "dim only": one of the two sequences given, the other drawn from the model (the docstring of sample()
   allows it; only the clauses about every produced hypergraph, the size counts (dim only) and the seed apply).
 
+* "shared" cases (any of the modes above except "model"): the conditioning objects - the dim_seq dict, the deg_seq array, the
+  initial Hypergraph - are built ONCE and the very same objects are handed to two samplers A and B (same parameters and seed;
+  u and w are separate equal arrays, since allow_rescaling may rescale them in place) and then to a second sample() call on A
+  and on B, 5 hypergraphs each.  All per-hypergraph and conditioning clauses are evaluated on A's first call, B's first call
+  and A's second call; A and B must agree on the first call and on the second call; afterwards the dict (items, in order), the
+  array (dtype, shape, values) and the hypergraph (nodes, hyperedges, weights, weightedness through the public API) must
+  equal deep copies taken before the first call.  Sequences: N <= 12, sizes 2..5, realisable / arbitrary / concentrated, dict
+  keys ascending or descending, allow_rescaling in one case of five; random initial hypergraphs on <= 9 nodes; a few "deg only" /
+  "dim only".
+* "numerical corner": initial hypergraphs on N = 24..30 nodes with 2..7 hyperedges of size 6..10 (pairwise distinct sizes in
+  every other case), possibly next to hyperedges of size 2..5, all label kinds, weighted or not; u scaled by 1e-7 / 1e-5 / 1e-3
+  ("tiny"), or with N/2..N-2 rows (nodes) set to zero ("zero rows": hyperedges with Poisson parameter exactly zero), or both,
+  or all rows zero; (burn-in, thinning) = (0, 0) and one (quick) / three (thorough) other pairs; every fifth case "shared".  The
+  same corner with both sequences given (degrees of a random hypergraph with 2..6 hyperedges of size 6..10), every other case
+  "shared".  The Poisson mean of such hyperedges (parameter / kappa(size), kappa up to 1e8) is far below double precision;
+  the exact degree / exact size clauses demand that none of them disappears.
+
 Clauses (function HyMMSBMSampler.sample), per produced hypergraph: is weighted; weights are positive integers; no
 repeated hyperedge (as node sets); every size >= 2; sizes <= max_hye_size (or N) when the sizes come from the model (modes
 model / deg only); nodes are nodes of the model (0..N-1) / of the initial hypergraph; conditioned degrees never exceeded
@@ -41,7 +58,9 @@ When the hyperedges of the initial hypergraph have pairwise distinct sizes the p
 coincided" holds by the statement itself (no size exceeds its count of one, so two sampled hyperedges never have the same
 size): there the exact degree / exact size clauses are checked on EVERY sample, from the produced hypergraph alone,
 without looking at the raw configuration (so hyperedges left out of the chain are seen as well).
-Per case: the two samplers give the same 5 hypergraphs (hyperedges with weights); sample() does not raise.
+Per case: the two samplers give the same 5 hypergraphs (hyperedges with weights); sample() does not raise.  "shared" cases:
+the same for the second sample() call of the two samplers (a sampler that consumes the caller's dim_seq / deg_seq / initial
+hypergraph shows up there; "sample() leaves its arguments alone" is not a clause of the statement and is only counted).
 
 Oracle: Counter arithmetic on the hyperedges returned by Hypergraph.get_edges()/get_weights(); degrees = number of
 hyperedges containing the node.
@@ -53,9 +72,13 @@ Known limits
   hyperedge dropped after the chain (zero weight) is a violation of the exact-degree clause.  If that routine is not
   there the premise falls back to "the produced hypergraph has as many hyperedges as the conditioning".
 * Only the first 5 elements of each generated sequence are examined; burn-in / thinning only in {0, 1, 20}.
-* In modes model / deg only / dim only the sampler draws from a generator that its seed does not control on this tree
-  (the embedded HyMMSBM gets no seed), so which of those cases raise differs from run to run; the driver's own choices are
-  all derived from ctx.seed.  Replays of such cases repeat the input up to 40 times.
+* In modes model / deg only / dim only the sampler also draws from the generator of its embedded HyMMSBM; on a tree where that
+  model is not given the sampler's seed, which of those cases raise differs from run to run (the driver's own choices are
+  all derived from ctx.seed).  Replays of such cases repeat the input up to 40 times.
+* After a second sample() call on one sampler the public flag matching_sequences may still say False from the first call
+  although the second construction matched; the degree clauses are then not evaluated for that call (fewer checks, no false
+  alarm).
+* The numerical corner is sampled, not enumerated; memberships below 1e-7 and N > 30 are not explored.
 * An exception whose cause is a configuration with fewer than two hyperedges (nothing to reshuffle) is still reported as
   "does not raise on admissible input" because the statement quantifies over all u, w; the key carries the mode and the
   exception type so that such reports can be triaged separately.
@@ -74,6 +97,7 @@ PROPERTY = "C16"
 FN = "HyMMSBMSampler.sample"
 RAISES = "does not raise on admissible input"
 N_SAMPLES = 5
+UNCHANGED = "sample() leaves the caller's dim_seq / deg_seq / initial hypergraph as they were"
 STEPS = [(b, t) for b in (0, 1, 20) for t in (0, 1, 20)]
 
 
@@ -98,6 +122,9 @@ def _params(np, cfg, N):
         # communities only has Poisson parameter exactly zero (the case the sampler's lower clip exists for)
         u = np.zeros((N, K))
         u[np.arange(N), np.arange(N) % K] = cfg.get("scale", 1.0)
+    if cfg.get("zero_rows"):
+        # nodes without any membership: every hyperedge with at most one node outside these rows has Poisson parameter exactly zero
+        u[[i for i in cfg["zero_rows"] if i < N], :] = 0.0
     w = rng.random((K, K)) + 0.05
     w = np.triu(w) + np.triu(w, 1).T
     if cfg.get("w") == "diagonal":
@@ -144,14 +171,14 @@ def _snapshot(H):
     return edges, weights
 
 
-def _one_run(np, Hypergraph, Sampler, cfg):
-    """Build one sampler, draw N_SAMPLES hypergraphs.  Returns dict(error=..., samples=[(edges, weights, weighted)], matching=..)."""
+def _prepare(np, Hypergraph, cfg):
+    """The conditioning of one case: the expected nodes / degrees / size counts (oracle side, from cfg alone or from the
+    initial hypergraph through its public API) and the objects handed to sample() (kw)."""
     mode = cfg["mode"]
-    out = dict(error=None, samples=[], raw_distinct=[], matching=None, N=None, nodes=None, deg=None, dim=None, total=None,
-               distinct_sizes=False)
-    H = None
+    out = dict(N=None, nodes=None, deg=None, dim=None, total=None, distinct_sizes=False, kw={}, H=None)
     if mode == "initial":
         H = _build_initial(Hypergraph, cfg)
+        out["H"] = H
         N = H.num_nodes()
         out["nodes"] = set(H.get_nodes())
         he = [tuple(e) for e in H.get_edges()]
@@ -168,8 +195,7 @@ def _one_run(np, Hypergraph, Sampler, cfg):
             out["dim"] = collections.Counter({int(k): int(v) for k, v in cfg["dim"].items()})
             out["total"] = sum(out["dim"].values())
     out["N"] = N
-    u, w = _params(np, cfg, N)
-    kw = {}
+    kw = out["kw"]
     if mode == "initial":
         kw["initial_hyg"] = H
     if mode in ("sequences", "deg only"):
@@ -178,20 +204,50 @@ def _one_run(np, Hypergraph, Sampler, cfg):
         kw["dim_seq"] = {int(k): int(v) for k, v in cfg["dim"].items()}
     if mode != "initial" and "allow_rescaling" in cfg:
         kw["allow_rescaling"] = cfg["allow_rescaling"]
+    return out
+
+
+def _frozen(np, prep):
+    """Deep, comparable copy of the caller's conditioning objects (dict items in order, array dtype and values, the initial
+    hypergraph through its public API)."""
+    kw = prep["kw"]
+    out = {}
+    if "dim_seq" in kw:
+        out["dim_seq"] = [(repr(k), repr(v)) for k, v in kw["dim_seq"].items()]
+    if "deg_seq" in kw:
+        out["deg_seq"] = (str(kw["deg_seq"].dtype), list(kw["deg_seq"].shape), [repr(x) for x in kw["deg_seq"].tolist()])
+    if prep["H"] is not None:
+        H = prep["H"]
+        out["initial_hyg"] = (bool(H.is_weighted()), [repr(v) for v in H.get_nodes()],
+                              [repr(tuple(e)) for e in H.get_edges()], [repr(x) for x in H.get_weights()])
+    return out
+
+
+def _one_run(np, Sampler, cfg, prep, sampler=None):
+    """One call of sample(**prep["kw"]) on a new sampler (or on `sampler`, a sampler that has been used before), first
+    N_SAMPLES hypergraphs.  Returns (dict(error=..., samples=[(edges, weights, weighted)], matching=.., + the oracle side of prep),
+    the sampler)."""
+    out = dict(error=None, samples=[], raw_distinct=[], matching=None)
+    for f in ("N", "nodes", "deg", "dim", "total", "distinct_sizes"):
+        out[f] = prep[f]
+    s = sampler
     try:
-        s = Sampler(u=u, w=w, max_hye_size=cfg.get("max_hye_size"), exact_dyadic_sampling=cfg.get("exact", True),
-                    burn_in_steps=cfg["burn"], intermediate_steps=cfg["thin"], seed=cfg["seed"])
-        # "no two sampled hyperedges coincided" is a fact about the raw configuration the chain hands to sample(): observe it by
-        # wrapping the chain generator of this instance (falls back to counting hyperedges when the routine is not there)
         raw = []
-        chain = getattr(s, "_mcmc_routine", None)
-        if callable(chain):
-            def tee(*a, **k):
-                for config in chain(*a, **k):
-                    raw.append([frozenset(h) for h in config])
-                    yield config
-            s._mcmc_routine = tee
-        gen = s.sample(**kw)
+        if s is None:
+            u, w = _params(np, cfg, prep["N"])
+            s = Sampler(u=u, w=w, max_hye_size=cfg.get("max_hye_size"), exact_dyadic_sampling=cfg.get("exact", True),
+                        burn_in_steps=cfg["burn"], intermediate_steps=cfg["thin"], seed=cfg["seed"])
+            # "no two sampled hyperedges coincided" is a fact about the raw configuration the chain hands to sample(): observe it by
+            # wrapping the chain generator of this instance (falls back to counting hyperedges when the routine is not there)
+            chain = getattr(s, "_mcmc_routine", None)
+            if callable(chain):
+                def tee(*a, **k):
+                    for config in chain(*a, **k):
+                        s._hv_raw.append([frozenset(h) for h in config])
+                        yield config
+                s._mcmc_routine = tee
+        s._hv_raw = raw   # configurations yielded to THIS call of sample()
+        gen = s.sample(**prep["kw"])
         for k in range(N_SAMPLES):
             Hs = next(gen)
             edges, weights = _snapshot(Hs)
@@ -201,7 +257,7 @@ def _one_run(np, Hypergraph, Sampler, cfg):
                 out["matching"] = getattr(s, "matching_sequences", None)
     except Exception as e:  # noqa: BLE001 - any exception of the code under test is an observation
         out["error"] = (type(e).__name__, str(e)[:160])
-    return out
+    return out, s
 
 
 def _case(cfg):
@@ -213,6 +269,7 @@ def _case(cfg):
     passes = collections.Counter()
     fails = []
     mode = cfg["mode"]
+    shared = bool(cfg.get("shared"))
     # key class: is everything the sample is conditioned on supplied by the caller, or (partly) drawn from the model?
     cls = "conditioning given" if mode in ("initial", "sequences") else "conditioning drawn from the model"
 
@@ -228,28 +285,52 @@ def _case(cfg):
                               input=dict(cfg, **(extra or {}))))
         return cond
 
+    before = after = None
     try:
         with warnings.catch_warnings():
             warnings.simplefilter("ignore")
-            runs = [_one_run(np, Hypergraph, Sampler, cfg) for _ in range(2)]
+            if not shared:
+                # two samplers, each with its own (equal) conditioning objects; the clauses are evaluated on the first, the second
+                # is only compared with it
+                runs = [("first sampler", _one_run(np, Sampler, cfg, _prepare(np, Hypergraph, cfg))[0], True),
+                        ("second sampler", _one_run(np, Sampler, cfg, _prepare(np, Hypergraph, cfg))[0], False)]
+                pairs = [(0, 1)]
+            else:
+                # the SAME dim_seq dict / deg_seq array / initial hypergraph for two samplers A, B and for a second sample() call
+                # on each of them; u and w are separate (equal) arrays per sampler, since allow_rescaling may rescale them in place
+                prep = _prepare(np, Hypergraph, cfg)
+                before = _frozen(np, prep)
+                a1, sa = _one_run(np, Sampler, cfg, prep)
+                b1, sb = _one_run(np, Sampler, cfg, prep)
+                runs = [("sampler A, first sample() call", a1, True), ("sampler B (same objects), first sample() call", b1, True)]
+                pairs = [(0, 1)]
+                if a1["error"] is None and b1["error"] is None:
+                    a2, _ = _one_run(np, Sampler, cfg, prep, sampler=sa)
+                    b2, _ = _one_run(np, Sampler, cfg, prep, sampler=sb)
+                    runs += [("sampler A, second sample() call", a2, True), ("sampler B, second sample() call", b2, False)]
+                    pairs.append((2, 3))
+                after = _frozen(np, prep)
     finally:
         np.seterr(**old)
         logging.disable(logging.NOTSET)
 
     nontrivial = False
-    for r_i, r in enumerate(runs):
+    for tag, r, full in runs:
         if r["error"] is not None:
             passes[RAISES] += 0
             fails.append(dict(clause=RAISES, key=f"{FN}:{RAISES}[{cls}: {r['error'][0]}]", expected=None,
-                              observed="%s: %s" % r["error"], input=dict(cfg, samples_before_error=len(r["samples"]))))
+                              observed="%s: %s" % r["error"],
+                              input=dict(cfg, samples_before_error=len(r["samples"]), **({"run": tag} if shared else {}))))
         else:
             passes[RAISES] += 1
-        if r_i == 1:
-            break  # the second run is only compared with the first (same clauses, same input)
+        if not full:
+            continue  # only compared with its twin (same clauses, same input)
         D = cfg.get("max_hye_size") or r["N"]
         matching = r["matching"] is True
         for k, (edges, weights, weighted) in enumerate(r["samples"]):
             ex = dict(sample_index=k, hyperedges=[[plain(v) for v in e] for e in edges], weights=[plain(x) for x in weights])
+            if shared:
+                ex["run"] = tag
             sets = [frozenset(e) for e in edges]
             if len(sets) >= 2:
                 nontrivial = True
@@ -281,18 +362,33 @@ def _case(cfg):
                       observed=dict(deg), extra=ex)
                 check(+dim == +r["dim"], "every size has exactly its conditioned count when nothing coincided",
                       expected=dict(r["dim"]), observed=dict(dim), extra=ex)
-    a, b = runs
-    if a["error"] is None or b["error"] is None:
-        def canon(r):
-            return [sorted(((sorted(repr(plain(v)) for v in e), repr(plain(x))) for e, x in zip(edges, weights)))
-                    for edges, weights, _ in r["samples"]]
-        same = canon(a) == canon(b) and (a["error"] is None) == (b["error"] is None)
-        check(same, "same parameters and seed give the same sequence of samples",
-              observed=dict(first=canon(a)[:2], second=canon(b)[:2], errors=[a["error"], b["error"]]))
-    return dict(cfg=cfg, passes=dict(passes), fails=fails[:6], n_fails=len(fails), nontrivial=nontrivial,
-                matching=runs[0]["matching"], raised=runs[0]["error"] is not None,
-                coincided=sum(1 for e, _, _ in runs[0]["samples"] if runs[0]["total"] is not None and len(e) < runs[0]["total"]),
-                full=sum(1 for e, _, _ in runs[0]["samples"] if runs[0]["total"] is not None and len(e) == runs[0]["total"]))
+
+    def canon(r):
+        return [sorted(((sorted(repr(plain(v)) for v in e), repr(plain(x))) for e, x in zip(edges, weights)))
+                for edges, weights, _ in r["samples"]]
+    for i, j in pairs:
+        (ta, a, _), (tb, b, _) = runs[i], runs[j]
+        if a["error"] is None or b["error"] is None:
+            same = canon(a) == canon(b) and (a["error"] is None) == (b["error"] is None)
+            check(same, "same parameters and seed give the same sequence of samples",
+                  observed=dict(first=canon(a)[:2], second=canon(b)[:2], errors=[a["error"], b["error"]], runs=[ta, tb]))
+    if shared:
+        # NOT a clause of the statement (C16 does not say that sample() leaves its arguments alone): counted only. A sampler that consumes
+        # the caller's objects is reported through "same parameters and seed give the same samples" on the shared cases above.
+        pass
+    first = runs[0][1]
+    # report at most 8 failures per case, one of every kind (key) first
+    firsts, seen_keys = [], set()
+    for f in fails:
+        if f["key"] not in seen_keys:
+            seen_keys.add(f["key"])
+            firsts.append(f)
+    n_fails = len(fails)
+    fails = (firsts + [f for f in fails if not any(f is g for g in firsts)])[:8]
+    return dict(cfg=cfg, passes=dict(passes), fails=fails, n_fails=n_fails, nontrivial=nontrivial,
+                matching=first["matching"], raised=first["error"] is not None, runs=len(runs),
+                coincided=sum(1 for e, _, _ in first["samples"] if first["total"] is not None and len(e) < first["total"]),
+                full=sum(1 for e, _, _ in first["samples"] if first["total"] is not None and len(e) == first["total"]))
 
 
 # --------------------------------------------------------------------------------------------------------------
@@ -455,6 +551,99 @@ def _plan(quick, seed):
         N = R.randint(10, 14)
         emit(dict(mode="deg only", N=N, K=2, w="diagonal", target=(0.2, 1.0)[j % 2], max_hye_size=(3, 2, 4)[j % 3], exact=False,
                   allow_rescaling=False, deg=[3] * N), [(5, 3)], 2)
+    # ---- the SAME conditioning objects (dim_seq dict, deg_seq array, initial hypergraph) for two samplers and for two sample()
+    # calls on each ("shared"): both sequences given
+    for j in range(36 if quick else 160):
+        N = R.randint(2, 12) if j >= 2 else 2
+        E = R.randint(2, 9)
+        dim = collections.Counter(R.randint(2, min(N, 5)) for _ in range(E))
+        total = sum(d * c for d, c in dim.items())
+        kind = ("realisable", "realisable", "arbitrary", "concentrated")[j % 4]
+        deg = [0] * N
+        if kind == "realisable":
+            for d, c in sorted(dim.items()):
+                for _ in range(c):
+                    for v in R.sample(range(N), d):
+                        deg[v] += 1
+        else:
+            for _ in range(total):
+                deg[R.randrange(N if kind == "arbitrary" else max(1, N // 3))] += 1
+            R.shuffle(deg)
+        items = sorted(dim.items(), reverse=bool(j % 2))      # the order of the dict's keys is the caller's choice
+        base = dict(mode="sequences", shared=True, N=N, deg=deg, dim={str(k): v for k, v in items}, kind=kind,
+                    K=R.randint(1, 3), w=R.choice(["full", "diagonal"]), scale=R.choice([0.05, 1.0, 5.0]),
+                    deg_dtype=R.choice(["int", "float"]), allow_rescaling=(j % 5 == 4))
+        emit(base, [STEPS[(j + 4 * k) % 9] for k in range(2 if quick else 3)], 1)
+    # shared, one sequence given
+    for j in range(8 if quick else 48):
+        N = R.randint(3, 8)
+        dim = collections.Counter(R.randint(2, min(N, 5)) for _ in range(R.randint(2, 7)))
+        base = dict(N=N, K=R.randint(1, 3), w=R.choice(["full", "diagonal"]), target=R.choice([6, 20]), exact=bool(j % 2),
+                    allow_rescaling=bool((j // 2) % 2), shared=True)
+        if j % 2:
+            emit(dict(base, mode="dim only", dim={str(k): v for k, v in sorted(dim.items())}), [STEPS[(j + 2) % 9]], 1)
+        else:
+            emit(dict(base, mode="deg only", deg=[R.randint(0, 4) for _ in range(N)]), [STEPS[(j + 2) % 9]], 1)
+    # shared, one initial hypergraph object
+    for j in range(20 if quick else 100):
+        N = R.randint(3, 9)
+        es = set()
+        for _ in range(R.randint(2, 8)):
+            es.add(tuple(sorted(R.sample(range(N), R.randint(2, min(N, 6))))))
+        es = [list(e) for e in sorted(es)]
+        if len(es) < 2:
+            continue
+        covered = {v for e in es for v in e}
+        base = dict(mode="initial", shared=True, edges=es, isolated=[v for v in range(N) if v not in covered and R.random() < 0.5],
+                    labels=R.choice(["id", "shift", "str"]), K=R.randint(1, 3), w=R.choice(["full", "diagonal"]),
+                    scale=R.choice([0.05, 1.0, 5.0]))
+        if R.random() < 0.5:
+            base["weights"] = [R.randint(1, 5) for _ in es]
+        emit(base, [STEPS[(j + 4 * k) % 9] for k in range(2 if quick else 3)], 1)
+    # ---- numerical corner of the parameters: memberships of order 1e-7 .. 1e-3 and / or nodes without any membership (zero rows
+    # of u) together with LARGE hyperedges (N = 24..30, sizes 6..10, normalisation kappa(size) up to 1e8), possibly next to small
+    # ones; the Poisson mean of such a hyperedge is far below double precision, still no hyperedge may be dropped
+    for j in range(40 if quick else 240):
+        N = R.randint(24, 30)
+        if j % 2 == 0:      # pairwise distinct sizes: exact clauses on every sample, whatever the chain did
+            sizes = R.sample(range(6, 11), R.randint(2, 5)) + (R.sample(range(2, 6), R.randint(0, 3)) if j % 4 == 0 else [])
+        else:
+            sizes = [R.randint(6, 10) for _ in range(R.randint(2, 7))] + [R.randint(2, 4) for _ in range(R.randint(0, 3))]
+        es = set()
+        for d in sizes:
+            es.add(tuple(sorted(R.sample(range(N), d))))
+        es = [list(e) for e in sorted(es)]
+        if len(es) < 2:
+            continue
+        covered = {v for e in es for v in e}
+        corner = ("tiny", "zero rows", "tiny and zero rows", "all rows zero")[(j // 2) % 4 if j % 16 == 15 else (j // 2) % 3]
+        base = dict(mode="initial", corner=corner, edges=es, isolated=[v for v in range(N) if v not in covered and R.random() < 0.5],
+                    labels=R.choice(["id", "shift", "str"]), K=R.randint(1, 3), w=R.choice(["full", "diagonal"]))
+        base["scale"] = R.choice([1e-7, 1e-7, 1e-5, 1e-3]) if "tiny" in corner else R.choice([0.05, 1.0, 5.0])
+        if "zero" in corner:
+            base["zero_rows"] = sorted(R.sample(range(N), R.randint(N // 2, N - 2))) if corner != "all rows zero" else list(range(N))
+        if R.random() < 0.3:
+            base["weights"] = [R.randint(1, 5) for _ in es]
+        if j % 5 == 0:
+            base["shared"] = True
+        emit(base, [(0, 0)] + [STEPS[1 + (j + 3 * k) % 8] for k in range(1 if quick else 3)], 1)
+    # the same corner with both sequences given: degrees of a random hypergraph with sizes 6..10 on N = 24..30 nodes
+    for j in range(10 if quick else 80):
+        N = R.randint(24, 30)
+        dim = collections.Counter(R.randint(6, 10) for _ in range(R.randint(2, 6)))
+        deg = [0] * N
+        for d, c in sorted(dim.items()):
+            for _ in range(c):
+                for v in R.sample(range(N), d):
+                    deg[v] += 1
+        corner = ("tiny", "zero rows", "tiny and zero rows")[j % 3]
+        base = dict(mode="sequences", corner=corner, N=N, deg=deg, dim={str(k): v for k, v in sorted(dim.items())},
+                    kind="realisable", K=R.randint(1, 3), w=R.choice(["full", "diagonal"]), deg_dtype=R.choice(["int", "float"]),
+                    allow_rescaling=False, shared=(j % 2 == 0))
+        base["scale"] = R.choice([1e-7, 1e-5]) if "tiny" in corner else 1.0
+        if "zero" in corner:
+            base["zero_rows"] = sorted(R.sample(range(N), R.randint(N // 2, N - 2)))
+        emit(base, [(0, 0), STEPS[1 + j % 8]], 1)
     return plan
 
 
@@ -468,13 +657,15 @@ def _workers():
 
 
 def run(ctx):
-    ctx.rule("one case = one sampler configuration (mode, u, w, burn-in, thinning, seed) run twice, first 5 samples each; "
+    ctx.rule("one case = one sampler configuration (mode, u, w, burn-in, thinning, seed) run twice (shared: 4 runs), first 5 samples each; "
              "initial hypergraphs: all with >=2 hyperedges on 3 nodes and with 2-3 hyperedges on 4 nodes, then random on <=8 "
              "nodes (labels 0..N-1 / shifted / strings, weighted or not, isolated nodes), max_hye_size default; again with an "
              "explicit max_hye_size below / equal to / above the largest initial hyperedge (all on 3 nodes, all with pairwise "
              "distinct sizes on 4 nodes, random with distinct and with repeated sizes); sequences with equal totals: "
              "realisable / arbitrary / concentrated; model: four parameter scales x max_hye_size x exact_dyadic; one "
-             "sequence only. A case is non-trivial if some produced hypergraph has at least two hyperedges.")
+             "sequence only; 'shared' cases: one dim_seq dict / deg_seq array / initial hypergraph object handed to two samplers and to "
+             "two sample() calls on each, compared with deep copies afterwards; numerical corner: N = 24..30, hyperedges of size "
+             "6..10, u of order 1e-7..1e-3 and / or with zero rows. A case is non-trivial if some produced hypergraph has at least two hyperedges.")
     ctx.assume("'no two sampled hyperedges coincided' is observed on the raw configuration yielded by the instance's _mcmc_routine "
                "(wrapped by the driver); fallback when that routine is absent: the sample has as many hyperedges as the conditioning; "
                "for an initial hypergraph whose hyperedges have pairwise distinct sizes the premise is taken to hold always "
@@ -505,6 +696,10 @@ def run(ctx):
                       ("below" if D < L else "equal to" if D == L else "above"))
         if cfg["mode"] == "initial" and len({len(e) for e in cfg["edges"]}) == len(cfg["edges"]):
             ctx.count("cases: initial with hyperedges of pairwise distinct sizes (exact clauses on every sample)")
+        if cfg.get("shared"):
+            ctx.count("cases: same conditioning objects for two samplers and two sample() calls each (%s)" % cfg["mode"])
+        if cfg.get("corner"):
+            ctx.count("cases: numerical corner (%s), hyperedges of size 6..10 on 24..30 nodes" % cfg["corner"])
         if cfg["mode"] == "sequences":
             ctx.count("sequences reported as %s (%s)" % ({True: "matching", False: "not matching"}.get(res["matching"], "unknown"),
                                                          cfg["kind"]))
